@@ -128,6 +128,18 @@ CHECKS["C12"] = (
     "DESIGN.md 6 (C12)",
 )
 
+CHECKS["C14"] = (
+    "model_checking",
+    "explicit-state exploration of all operation histories up to a depth bound over two cstruct objects and three live instances, replayed on fresh real objects, against an independent-worlds reference model",
+    "All applicable sequences of <=3 operations from an alphabet of 35 (thorough: <=4; quick adds depth 4 over a 12-operation sub-alphabet): "
+    "construct default / with kwargs, parse, failing parse, nine kinds of mutation (scalar, array element, nested struct, array-of-struct "
+    "element, 2-D element, union member, dynamic array, anonymous member and its array) on either of two instances, load more definitions, "
+    "flip endianness, add_type with different targets on the two objects, load a user of the alias - under both readers. After every "
+    "operation: every live instance equals its own model value and dumps accordingly, fresh defaults are pristine, parsing equals the "
+    "model's pure decode, each cstruct object has exactly what it was given.",
+    "DESIGN.md 5.1, 6 (C14)",
+)
+
 NOT_APPLICABLE = {}
 
 
